@@ -135,7 +135,7 @@ class SmiV2Lexer(AbstractLexer):
 
     def t_macro_body(self, t):
         r'.+?(?=END)'
-        pass
+        t.lexer.lineno += len(re.findall(r'\r\n|\n|\r', t.value))
 
     # Skipping EXPORTS
     def t_EXPORTS(self, t):
@@ -153,7 +153,7 @@ class SmiV2Lexer(AbstractLexer):
 
     def t_exports_body(self, t):
         r'[^;]+'
-        pass
+        t.lexer.lineno += len(re.findall(r'\r\n|\n|\r', t.value))
 
     # Skipping CHOICE
     def t_CHOICE(self, t):
@@ -171,7 +171,7 @@ class SmiV2Lexer(AbstractLexer):
 
     def t_choice_body(self, t):
         r'[^\}]+'
-        pass
+        t.lexer.lineno += len(re.findall(r'\r\n|\n|\r', t.value))
 
     # Comment handling
     def t_begin_comment(self, t):
